@@ -181,6 +181,23 @@ def run(ck):
             ok = T.path_has(g, c.args[2], ".interest") and T.path_has(g, c.args[3], ".mode") and T.resolves_to_call(g, c.args[4], [x.bb for x in T.calls(g, name="token")])
             ck.verdict(ok, "3", "T6-provenance", g, "poller-gets:self.interest,self.mode,fresh-token", "the poller call receives self.interest, self.mode and the token just obtained from the factory", "Generic::%s does not pass its current interest/mode/token to the poller" % callee, site=g.where(c.bb))
 
+    # TransientSource is state-directed: its registration bookkeeping is decided by C18's exploration
+    from props import C18
+
+    sub_ck = type(ck)(ck.prop, ck.facts, ck.config, ck.tier)
+    sub_ck.nested = True
+    if not getattr(ck, "nested", False):
+        try:
+            C18.run(sub_ck)
+        except AnchorMissing:
+            pass
+    for r in sub_ck.results:
+        if r["verdict"] != "ok" or r["instance"] == "explored":
+            r = dict(r)
+            r["key"] = r["key"].replace("C16.1/", "C16.5/", 1)
+            r["clause"] = "5"
+            ck.results.append(r)
+
     # ---- clause 5: wrapper delegation -----------------------------------------------------------------------
     n = common.wrapper_forwarding(ck, "5")
     ck.floor("5", "wrapper (impl, method) forwarding instances", n, 12 if ck.has("executor") else 9)
